@@ -13,11 +13,19 @@ KINDS_FULL = [
 KINDS_INTERACT = ["absent", "null", "int", "s_abc", "s_int", "s_float", "s_bool", "l_empty", "l_null"]
 KINDS_DATE = ["s_date", "s_time", "s_datetime", "s_int", "s_abc", "null"]
 KINDS_SMALL = ["absent", "null", "int", "float", "s_abc", "s_int", "l_empty", "l_int", "o_k", "l_objs"]
-KINDS_NEST = ["absent", "null", "o_k", "o_kj", "l_objs", "l_obj_xy", "l_objs_xy_x", "o_xy", "o_xyz", "l_empty", "o_empty", "s_abc"]
+KINDS_LIT = ["absent", "null", "s_abc", "s_xyz", "s_near", "s_long", "s_uni", "s_esc", "s_int", "l_strs15", "l_strs16", "l_rep16",
+             "l_strs8a", "l_strs8b"]
+KINDS_LITM = ["o_tags8a", "o_tags8b", "o_tags_rep", "o_tag_uni", "o_k"]
+KINDS_ORDER = ["absent", "null", "int", "float", "bool", "s_abc", "l_int", "o_k"]
+KINDS_DBG = ["int", "float"]
+KINDS_NEST = ["absent", "null", "o_k", "o_kj", "l_objs", "l_obj_xy", "l_objs_xy_x", "o_xy", "o_xyz", "l_empty", "o_empty", "s_abc",
+              "o_parent1", "o_parent2"]
 
 ATOMS = {"s_abc": "abc", "s_xyz": "xyz", "s_int": "12", "s_float": "1.5", "s_bool": "true", "s_long": LONG, "s_empty": "",
          "s_date": "2020-01-02", "s_time": "11:22:33", "s_datetime": "2020-01-02T11:22:33", "s_near": NEAR, "s_int2": "-7",
-         "s_nan": "nan", "s_True": "True"}
+         "s_nan": "nan", "s_True": "True", "s_uni": "\u041c\u043e\u0441\u043a\u0432\u0430 \u041a\u0438\u0457\u0432",
+         "s_esc": '"' * 6 + "\\" * 5 + "\t\n"}
+STRS16 = [f"v{i:02d}" for i in range(16)]
 
 
 def leaf(ch, tag, typ, sym):
@@ -40,6 +48,16 @@ def build(ch, tag, kind, sym=False):
         return leaf(ch, tag, kind, sym)
     if kind in ATOMS:
         return ATOMS[kind]
+    if kind == "l_strs15":
+        return list(STRS16[:15])
+    if kind == "l_strs16":
+        return list(STRS16)
+    if kind == "l_rep16":
+        return ["on", "off"] * 8
+    if kind == "l_strs8a":
+        return list(STRS16[:8])
+    if kind == "l_strs8b":
+        return list(STRS16[4:12])
     if kind == "l_empty":
         return []
     if kind == "l_null":
@@ -67,6 +85,20 @@ def build(ch, tag, kind, sym=False):
         return {"x": leaf(ch, tag + ".x", "int", sym), "y": leaf(ch, tag + ".y", "int", sym)}
     if kind == "o_xyz":
         return {"x": leaf(ch, tag + ".x", "int", sym), "y": "abc", "z": None}
+    if kind == "o_tags8a":
+        return {"id": 1, "kind": "t", "tags": list(STRS16[:8])}
+    if kind == "o_tags8b":
+        return {"id": 2, "kind": "t", "tags": list(STRS16[4:12])}
+    if kind == "o_tags_rep":
+        return {"id": 3, "kind": "t", "tags": ["on", "off", "on"]}
+    if kind == "o_tag_uni":
+        return {"id": 4, "kind": ATOMS["s_uni"], "tags": [ATOMS["s_esc"]]}
+    if kind == "o_parent1":
+        return {"n": leaf(ch, tag + ".n", "int", sym), "m": "abc",
+                "c": {"x": leaf(ch, tag + ".c.x", "int", sym), "y": leaf(ch, tag + ".c.y", "float", sym), "z": None}}
+    if kind == "o_parent2":
+        return {"n": leaf(ch, tag + ".n", "int", sym), "m": "xyz",
+                "c": {"x": leaf(ch, tag + ".c.x", "int", sym), "y": leaf(ch, tag + ".c.y", "float", sym), "w": "12"}}
     if kind == "o_deep":
         return {"k": {"z": leaf(ch, tag + ".k.z", "int", sym)}, "m": [{"z": None}]}
     raise ValueError(kind)
